@@ -31,8 +31,16 @@ func bytecodeFns(bc *ugo.Bytecode) *Sexp {
 	out := L(A("fns"))
 	cfs := L(A("cf"))
 	for i, c := range bc.Constants {
-		if _, ok := c.(*ugo.CompiledFunction); ok {
-			cfs.List = append(cfs.List, A(strconv.Itoa(i)))
+		if cf, ok := c.(*ugo.CompiledFunction); ok {
+			// free-variable slots the function's own instructions use
+			need := 0
+			ugo.IterateInstructions(cf.Instructions, func(pos int, op ugo.Opcode, operands []int, offset int) bool {
+				if (op == ugo.OpGetFree || op == ugo.OpSetFree || op == ugo.OpGetFreePtr) && operands[0]+1 > need {
+					need = operands[0] + 1
+				}
+				return true
+			})
+			cfs.List = append(cfs.List, L(A(strconv.Itoa(i)), A(strconv.Itoa(need))))
 		}
 	}
 	add := func(cf *ugo.CompiledFunction) {
@@ -86,7 +94,7 @@ func runCompile(args []*Sexp) (out *Sexp) {
 	case "reuse":
 		st := ugo.NewSymbolTable()
 		opts.SymbolTable = st
-		if _, err := ugo.Compile([]byte("zz := 1\nyy := func() { return zz }"), opts); err != nil {
+		if _, err := ugo.Compile([]byte("zz := \"pad\"\nglobal gg\nyy := func() { return [zz, gg] }"), opts); err != nil {
 			return L(A("err"), A("reuse-setup"))
 		}
 	}
